@@ -213,3 +213,74 @@ Proof.
     cbn [op_ys flat_map eop_conns map snd app]. destruct (Nat.ltb tok (length kinds)); [lia|rewrite cnt_nil; lia]. }
   pose proof (G os). pose proof (proj1 (NoDup_cnt _) Hf c). lia.
 Qed.
+
+(* ---------- C01_once ---------- *)
+Lemma disp_unique tr c : cnt c (disp_of tr) <= 1 ->
+  forall e1 e2, In e1 tr -> In e2 tr -> ev_disp e1 = [c] -> ev_disp e2 = [c] -> e1 = e2.
+Proof.
+  induction tr as [|e r IH]; intros Hc e1 e2 H1 H2 D1 D2; [destruct H1|].
+  unfold disp_of in *. cbn [flat_map] in Hc. rewrite cnt_app in Hc.
+  assert (Hr : forall e0, In e0 r -> ev_disp e0 = [c] -> 1 <= cnt c (flat_map ev_disp r)).
+  { intros e0 Hin Hd. apply cnt_In. apply in_flat_map. exists e0. split; [exact Hin|]. rewrite Hd. now left. }
+  destruct H1 as [<-|H1], H2 as [<-|H2].
+  - reflexivity.
+  - exfalso. rewrite D1, cnt_one_eq in Hc. specialize (Hr _ H2 D2). lia.
+  - exfalso. rewrite D2, cnt_one_eq in Hc. specialize (Hr _ H1 D1). lia.
+  - apply IH; auto. lia.
+Qed.
+
+Theorem once (L : Z) W kinds os :
+  fresh_cids os = true ->
+  let st := run L (init W kinds) os in
+  (* at most one dispatch event per connection id *)
+  (forall c, cnt c (disp st) <= 1) /\
+  (forall c tok g idx n tok' g' idx' n',
+     In (EvDispatch c tok g idx n) (trace st) -> In (EvDispatch c tok' g' idx' n') (trace st) ->
+     tok' = tok /\ g' = g /\ idx' = idx /\ n' = n) /\
+  (* a connection held by worker generation g was dispatched to g (hence to nobody else), with its token *)
+  (forall g w x, nth_error (ws st) g = Some w -> In x (w_queue w ++ w_picked w) ->
+     exists n, In (EvDispatch (c_id x) (c_tok x) g (w_idx w) n) (trace st)).
+Proof.
+  intros Hf st.
+  assert (H1 : forall c, cnt c (disp st) <= 1).
+  { intros c. pose proof (reach_cnt L W kinds os c) as [_ H]. pose proof (fresh_cnt os c Hf). fold st in H.
+    unfold und in H. lia. }
+  split; [exact H1|]. split.
+  - intros c tok g idx n tok' g' idx' n' Ha Hb.
+    pose proof (disp_unique (trace st) c (H1 c) _ _ Ha Hb eq_refl eq_refl) as E. injection E as -> -> -> ->. auto.
+  - intros g w x Hg Hx. pose proof (reach_sinv L W kinds os) as (_ & _ & I3 & _). fold st in I3.
+    destruct (I3 g w x Hg Hx) as [_ H]. exact H.
+Qed.
+
+(* ---------- C01_routing ---------- *)
+Theorem routing (L : Z) W kinds os :
+  fresh_cids os = true ->
+  let st := run L (init W kinds) os in
+  (* in a listener's accept queue: ids connected to that listener *)
+  (forall tok l c, nth_error (lsts st) tok = Some l -> In c (l_backlog l) -> home os c = Some tok) /\
+  (* at a worker: the token the connection carries is the listener it was connected to *)
+  (forall g w x, nth_error (ws st) g = Some w -> In x (w_queue w ++ w_picked w) ->
+     home os (c_id x) = Some (c_tok x) /\ c_tok x < length kinds) /\
+  (* every dispatch event carries the connection's listener *)
+  (forall c tok g idx n, In (EvDispatch c tok g idx n) (trace st) -> home os c = Some tok /\ tok < length kinds).
+Proof.
+  intros Hf st. pose proof (reach_sinv L W kinds os) as (_ & I2 & I3 & I4). fold st in I2, I3, I4.
+  pose proof (nodupb_NoDup _ Hf) as Hnd.
+  assert (G : forall tok c, In (tok, c) (valid_conns (length kinds) os) -> home os c = Some tok /\ tok < length kinds).
+  { intros tok c H. apply valid_conns_in in H as [H Ht]. split; [now apply home_unique|exact Ht]. }
+  split; [|split].
+  - intros tok l c Hl Hc. apply G. eapply I2; [apply bl_nth; exact Hl|exact Hc].
+  - intros g w x Hg Hx. apply G. destruct (I3 g w x Hg Hx) as [H _]. exact H.
+  - intros c tok g idx n Hin. apply G. rewrite Forall_forall in I4. exact (I4 _ Hin).
+Qed.
+
+(* ---------- C01_no_silent_drop ---------- *)
+Theorem no_kill_no_fault (L : Z) W kinds os :
+  no_kill os = true ->
+  let st := run L (init W kinds) os in
+  (forall g w, nth_error (ws st) g = Some w -> w_open w = true) /\
+  (forall e, In e (trace st) -> match e with EvLost _ | EvDropNoWorker _ | EvFaulted _ => False | _ => True end).
+Proof.
+  intros Hk st. destruct (reach_nofault L W kinds os Hk) as [HA HF]. fold st in HA, HF. split; [exact HA|].
+  intros e He. unfold NoFault in HF. rewrite Forall_forall in HF. specialize (HF e He). destruct e; cbn in HF; try exact I; discriminate.
+Qed.
